@@ -11,8 +11,8 @@
 (* records processed, in order) and `gone` (records of backups removed by  *)
 (* clean-up).  A configuration c is a record                               *)
 (*   [rule : {"daily","size"}, maxSize (bytes, 0 = none), maxBackups,      *)
-(*    days, gzip : BOOLEAN, slack (hours a backup name may be older than   *)
-(*    its newest record: 24 for date names, 0 for timestamp names)].       *)
+(*    days, gzip : BOOLEAN, slack (hours subtracted from a backup's age    *)
+(*    before it is compared with `days`; 0 in all current uses)].          *)
 (*                                                                         *)
 (* The statement fixes NO rotation instants: it bounds the growth of a     *)
 (* file under the size rule, and says what rotations and clean-ups must    *)
@@ -71,10 +71,21 @@ WriteRotate(id, size) ==
        /\ cur' = <<id>> /\ cb' = size
        /\ nrot' = nrot + 1
 
+\* Write, then a rotation: the record closes the new backup
+WriteThenRotate(id, size) ==
+  LET nb  == [ts |-> nrot + 1, ageh |-> 0, recs |-> Append(cur, id), gz |-> cfg.gzip]
+      all == Range(bks) \cup {nb}
+  IN /\ ~MustRotate(cfg, cb)
+     /\ \E rm \in SUBSET Outdated(cfg, all) :
+          /\ bks' = SeqOfSet(all \ rm)
+          /\ gone' = gone \cup UNION {Range(b.recs) : b \in rm}
+          /\ cur' = << >> /\ cb' = 0
+          /\ nrot' = nrot + 1
+
 Write(size) ==
   LET id == Len(written) + 1 IN
   /\ ~closed /\ Len(written) < MaxRecs
-  /\ (WriteStay(id, size) \/ WriteRotate(id, size))
+  /\ (WriteStay(id, size) \/ WriteRotate(id, size) \/ WriteThenRotate(id, size))
   /\ written' = Append(written, id)
   /\ out' = [op |-> "write", id |-> id, size |-> size]
   /\ UNCHANGED <<cfg, closed>>
@@ -104,8 +115,9 @@ NoLoss == Keep(Flat(bks) \o cur, PreRecs) = Keep(written, gone)
 \* under the size rule a file grows beyond the maximum by at most one record: what was in the
 \* current file before the record just appended fits the maximum (a backup is a former current file)
 SizeBound ==
-  [][(out'.op = "write" /\ cfg.rule = "size" /\ cfg.maxSize > 0 /\ Len(cur') > 1) =>
-       cb' - out'.size <= cfg.maxSize]_vars
+  [][(out'.op = "write" /\ cfg.rule = "size" /\ cfg.maxSize > 0) =>
+       /\ Len(cur') > 1 => cb' - out'.size <= cfg.maxSize
+       /\ (cur' = << >> /\ Len(cur) > 0) => cb <= cfg.maxSize]_vars
 
 \* clean-up never removes a backup that is not outdated, and nothing is removed without a rotation
 Retention ==
